@@ -1,7 +1,7 @@
 """Shared static-analysis helpers built on ir.py (repository specific)."""
 import re
 
-from .ir import (classify_asm, asm_callback, asm_lines, const_int, refkey, keyref, Inst, EdgePoint)
+from .ir import (classify_asm, asm_callback, asm_lines, const_int, refkey, keyref, Inst, EdgePoint, eval_icmp)
 from .frontend import AnalysisBroken
 
 SPIN_LOCK = 'myth_spin_lock_body'
@@ -537,6 +537,8 @@ def same_expr(fn, x, y, depth=0):
     if not affine_diff(fn, x, y):
         return True
     ix, iy = fn.insts.get(x), fn.insts.get(y)
+    if ix is not None and iy is not None and ix.op == 'load' and iy.op == 'load':
+        return loads_equal(fn, ix, iy, depth)
     if ix is None or iy is None or ix.op != iy.op or ix.op not in PURE_OPS:
         return False
     if ix.op == 'icmp' and ix.pred != iy.pred:
@@ -548,6 +550,36 @@ def same_expr(fn, x, y, depth=0):
     if ix.op in ('add', 'mul', 'and', 'or', 'xor') and len(ix.ops) == 2:
         return same_expr(fn, ix.ops[0], iy.ops[1], depth + 1) and same_expr(fn, ix.ops[1], iy.ops[0], depth + 1)
     return False
+
+
+FRESH_ALLOC = ('malloc', 'calloc', 'dr_malloc', 'myth_malloc', 'myth_flmalloc', 'real_malloc')
+
+
+def loads_equal(fn, l1, l2, depth=0):
+    """two non-volatile loads of the same address in one block read the same value when nothing in between can write
+    that location: no calls, and stores only into objects freshly allocated in this function (malloc result / alloca)
+    that the loaded address does not belong to"""
+    if l1.block.id != l2.block.id or getattr(l1, 'volatile', False) or getattr(l2, 'volatile', False):
+        return False
+    if l1.idx > l2.idx:
+        l1, l2 = l2, l1
+    if depth > 12 or not same_addr(fn, l1.ops[0], l2.ops[0]):
+        return False
+    lroot = fn.strip(fn.ap(l1.ops[0]).root) if isinstance(fn.ap(l1.ops[0]).root, str) else None
+    for ins in l1.block.insts[l1.idx + 1:l2.idx]:
+        if ins.op == 'call':
+            if (ins.callee or '').startswith('llvm.dbg') or (ins.callee or '').startswith('llvm.lifetime'):
+                continue
+            return False
+        if ins.op in ('cmpxchg', 'atomicrmw', 'fence'):
+            return False
+        if ins.op == 'store':
+            r = fn.ap(ins.ops[1]).root
+            ri = fn.insts.get(fn.strip(r)) if isinstance(r, str) else None
+            fresh = ri is not None and (ri.op == 'alloca' or (ri.op == 'call' and ri.callee in FRESH_ALLOC))
+            if not fresh or fn.strip(r) == lroot:
+                return False
+    return True
 
 
 def same_addr(fn, p, q):
@@ -989,3 +1021,64 @@ def affine_diff(fn, x, y):
 
 def load_terms(fn, form, field):
     return [k for k in form if k in fn.insts and fn.insts[k].op == 'load' and fn.field(fn.insts[k]) == field]
+
+
+def eval_cmp_fn(f, pick):
+    """Abstract execution of a loop-free function that uses its inputs only in comparisons, on one representative of an
+    ordering case: `pick` maps (root ref, field) of every load to its value.  Returns the returned integer, or None as soon
+    as the function does anything else (arithmetic on the inputs, calls, stores, loops): the finite case split is then no
+    longer a proof and the caller reports that."""
+    def getv(vals, r):
+        if isinstance(r, dict):
+            return r.get('c')
+        return vals.get(r)
+    vals = {}
+    cur = f.blocks[0]
+    prev = None
+    steps = 0
+    while steps < 400:
+        steps += 1
+        for ins in cur.insts:
+            if ins.op == 'phi':
+                for val, pb in ins.d['incoming']:
+                    if prev is not None and pb == prev.id:
+                        vals[ins.id] = getv(vals, val)
+                continue
+            if ins.op == 'load':
+                fld = f.field(ins)
+                root = f.strip(f.ap(ins.ops[0]).root)
+                if (root, fld) not in pick:
+                    return None
+                vals[ins.id] = pick[(root, fld)]
+            elif ins.op == 'icmp':
+                x, y = getv(vals, ins.ops[0]), getv(vals, ins.ops[1])
+                if x is None or y is None:
+                    return None
+                vals[ins.id] = 1 if eval_icmp(ins.pred, x, y) else 0
+            elif ins.op in ('zext', 'sext', 'trunc', 'bitcast'):
+                vals[ins.id] = getv(vals, ins.ops[0])
+            elif ins.op == 'select':
+                c = getv(vals, ins.ops[0])
+                vals[ins.id] = getv(vals, ins.ops[1] if c else ins.ops[2])
+            elif ins.op in ('and', 'or', 'xor'):
+                x, y = getv(vals, ins.ops[0]), getv(vals, ins.ops[1])
+                if x is None or y is None:
+                    return None
+                vals[ins.id] = {'and': x & y, 'or': x | y, 'xor': x ^ y}[ins.op]
+            elif ins.op == 'getelementptr':
+                continue
+            elif ins.op == 'br':
+                prev = cur
+                if 'cond' in ins.d:
+                    c = getv(vals, ins.d['cond'])
+                    if c is None:
+                        return None
+                    cur = f.blocks[ins.d['t'] if c else ins.d['f']]
+                else:
+                    cur = f.blocks[ins.d['t']]
+                break
+            elif ins.op == 'ret':
+                return getv(vals, ins.ops[0])
+            else:
+                return None
+    return None
